@@ -9,13 +9,13 @@ import (
 )
 
 func vpDB() database.Database {
-	return database.NewConfig([]config.UserConfig{{Username: "ab", Password: "pw-ab"}, {Username: "cd", Password: ""}})
+	return database.NewConfig([]config.UserConfig{{Username: "ab", Password: "pw-ab"}, {Username: "cd", Password: ""}, {Username: "ef", Password: "pw-ef"}})
 }
 
 //vp:property C14
 //vp:set k 3 4
-//vp:bounds K requests (quick 3, thorough 4) over two session identifiers; each request is one of {negotiate, authenticate for a 2-character user name with symbolic characters, undecodable base64, a non-NTLM byte string, empty message}; user database {"ab": non-empty password, "cd": empty password}; the client's response was computed from an arbitrary one of {the configured password, another password} for an arbitrary one of the server sessions created so far; cached contexts may or may not expire between requests
-//vp:assume ProcessAuthenticateMessage returns nil iff the response was computed from the password given to SetUserInfo and this session's challenge (go-ntlm, Appendix C); go-cache contract
+//vp:bounds K requests (quick 3, thorough 4) over two session identifiers; each request is one of {negotiate, authenticate for a 2-character user name with symbolic characters, undecodable base64, a non-NTLM byte string, empty message}; user database {"ab","ef": non-empty passwords, "cd": empty password}; the client's proof was computed from an arbitrary password of {ab's, ef's, another} under the name it sends or under ab's/ef's name, against the challenge of an arbitrary server session created so far; cached contexts may or may not expire between requests
+//vp:assume go-ntlm's ProcessAuthenticateMessage compares against the response key it derived at the session's FIRST authenticate message (fetchResponseKeys caches it) and this session's challenge; go-cache contract
 //vp:reach authenticated challenged refused
 func VP_C14_history() {
 	vpWire = map[string][]byte{}
@@ -42,12 +42,13 @@ func VP_C14_history() {
 			vpAssume(vpAnd(c0 < 0x80, c1 < 0x80))
 			user = string([]byte{c0, c1})
 			vpWire[text] = vpAuthenticateMsg([]byte{c0, 0, c1, 0})
-			if vpBool("client-knows-password-" + is) {
-				vpClientPw = "pw-ab"
-			} else {
-				vpClientPw = "other"
-			}
-			vpClientSess = vpIntRange("client-session-"+is, 0, 3)
+			// what the client computed its proof from: any of the passwords around, under the name it
+			// sends or under another account's name (an attacker need not be consistent)
+			vpMsgUser = user
+			vpProofPwId = vpInt("proof-pw-" + is) // 1: ab's password, 2: ef's password, 3: some other password
+			vpProofUserSel = vpInt("proof-user-" + is)
+			vpClientSess = vpInt("client-session-" + is)
+			vpAssume(vpAnd(vpAnd(vpProofPwId >= 1, vpProofPwId <= 3), vpAnd(vpAnd(vpProofUserSel >= 0, vpProofUserSel <= 2), vpAnd(vpClientSess >= 0, vpClientSess <= 3))))
 		case 2:
 			vpWireBad[text] = true
 		case 3:
@@ -72,11 +73,14 @@ func VP_C14_history() {
 			vpAssert(hadCtx && ctxBefore != nil, "authenticated-only-with-a-context-from-an-earlier-request-of-this-session")
 			s := live[sid]
 			vpAssert(s != nil && s.negotiated, "authenticated-only-after-a-negotiate-in-the-same-session")
+			want := map[string]string{"ab": "pw-ab", "ef": "pw-ef"}[user]
+			vpAssert(want != "", "authenticated-user-is-configured-with-a-non-empty-password")
 			if s != nil {
-				vpAssert(s.pw == "pw-ab" && s.user == "ab", "verified-against-the-configured-password-of-the-named-user")
-				vpAssert(vpClientPw == s.pw && vpClientSess == s.id, "client-proved-the-password-against-this-sessions-challenge")
+				vpAssert(s.pw == want && s.user == user, "verified-against-the-configured-password-of-the-named-user")
+				vpAssert(vpClientSess == s.id, "proof-was-computed-against-this-sessions-challenge")
 			}
-			vpAssert(user == "ab" && r.Username == "ab", "returns-exactly-the-configured-user-name")
+			vpAssert(vpProofPwId == vpPwId(want), "client-proved-knowledge-of-the-named-users-password")
+			vpAssert(r.Username == user, "returns-exactly-the-configured-user-name")
 			_, still := vpCacheItems[sid]
 			vpAssert(!still, "context-dropped-after-success")
 			delete(live, sid)
@@ -98,8 +102,8 @@ func VP_C14_history() {
 		}
 		// completeness: a client that knows the password and follows the exchange is authenticated
 		if kind == 1 && user == "ab" && hadCtx {
-			if s := live[sid]; s != nil && s.negotiated && vpClientPw == "pw-ab" && vpClientSess == s.id && !vpBool("expired-"+is) {
-				vpAssert(r.Authenticated, "correct-proof-is-authenticated")
+			if s := live[sid]; s != nil && s.negotiated && s.processed == 1 && vpProofPwId == 1 && vpProofUserSel == 0 && vpClientSess == s.id && !vpBool("expired-"+is) {
+				vpAssert(r.Authenticated, "correct-proof-right-after-the-challenge-is-authenticated")
 			}
 		}
 	}
